@@ -1,4 +1,5 @@
-SOURCE_COMMITS = ["a65ae7b fix: keep BuzHash repeated-input tracking in sync while priming the window"]
+SOURCE_COMMITS = ["a65ae7b fix: keep BuzHash repeated-input tracking in sync while priming the window",
+                  "5a3c8b9 fix: compare the full header checksum when --verify-header is given"]
 NOTES = ("Every check is decided by a SAT solver over the compiled real code within stated bounds (see DESIGN.md); "
          "exit 2 + an INCONCLUSIVE line means time-out / out of memory / vacuous harness / mirror edit not applicable -- never a pass, never a violation. "
          "known_findings.json lists genuine defects (fixed ones suppress nothing).")
@@ -25,6 +26,11 @@ CLAIMED = {
         "note": "Trusted: reqwest/tokio-sleep stubs, mock AsyncRead/AsyncSeek; sizes<=5, fragments<=6 bytes, <=3 fragments per reply; composition over polls by invariant.",
         "technique": TECH},
 }
+CLAIMED["C04"] = {
+    "text": "Chunk verification step: for every chunk content and every expected hash of every length, verify() accepts iff the truncated digest matches and then hands on exactly that chunk -- so no unverified or altered chunk can become a VerifiedChunk (the only thing feed accepts); raw chunks reach verification unmodified; the comparator the CLI applies to --verify-header is decided for all expected values of all lengths against all header checksums. Solver-decided for all values because corruption is universally quantified over bytes.",
+    "design_ref": "DESIGN.md section 4 (C04)",
+    "note": "Reduced scope: header checksum test in try_init, real decompressors, exit status and --verify-output are out of reach. Blake2 replaced by an ideal (injective) digest. The --verify-header condition is extracted textually from src/clone_cmd.rs on every run.",
+    "technique": TECH}
 NOT_APPLICABLE = {
     "C01": "writer pipeline = tokio runtime + spawn_blocking threads + tokio::fs/tempfile + brotli/zstd/lzma: none of it can be encoded by Kani/CBMC (no threads, no FFI file I/O, compression loops grow with input); the reader-side sub-lemmas are checked under C17/C06/C04 and the tiling half under C09",
     "C03": "reorder planner/executor are HashMap/HashSet/BTreeMap/sort/Vec::insert code; even with model containers one chunk does not get through symex+SAT (DESIGN.md section 2)",
